@@ -1,7 +1,7 @@
 (* C04 -- mixed templates compose: literals verbatim, each section evaluated independently.
    GENERATED from Properties/src/C04.props by tools/mkprops.py; property theorems only. *)
 From SP Require Import Model.Template Model.Scanner.
-From SP Require Import Proofs.ImplSpec Proofs.TemplateP Proofs.TemplateLaws Proofs.MapSepP.
+From SP Require Import Proofs.ImplSpec Proofs.TemplateP Proofs.TemplateLaws Proofs.MapSepP Proofs.ScannerP.
 
 (* format() -- both copies of the section loop, the per-call memo, the fast split
    path -- returns the literals verbatim and in order with each section replaced
@@ -17,6 +17,44 @@ Check C04_compose :
   forall (t : template) (x : str),
     run_pure (impl_format E t x) = spec_format E (t_sections t) x.
 Print Assumptions C04_compose.
+
+(* the multi-template scanner finds exactly the segments a template was assembled
+   from: literal text (anything without an opening brace) verbatim, ${...} text kept
+   literally and merged into the surrounding literal, each {...} section (brace
+   balanced in the escape-aware sense) as it parses on its own; the debug flag is
+   the disjunction of the sections' markers *)
+Theorem C04_scan_assemble :
+  forall (segs : list seg), segs_ok scan_init segs ->
+  parse_multi_template (assemble segs)
+  = let st := fold_left seg_next segs scan_init in Ok (frev (flush_literal st), st_dbg st).
+Proof. exact scan_assemble. Qed.
+Check C04_scan_assemble :
+  forall (segs : list seg), segs_ok scan_init segs ->
+  parse_multi_template (assemble segs)
+  = let st := fold_left seg_next segs scan_init in Ok (frev (flush_literal st), st_dbg st).
+Print Assumptions C04_scan_assemble.
+
+Theorem C04_scan_literal :
+  forall (l : str) (st : sstate), st_ok st -> existsb (N.eqb c_lbrace) l = false ->
+  fold_left scan_step l st = with_lit st (rev l ++ st_lit_rev st).
+Proof. exact scan_literal. Qed.
+Check C04_scan_literal :
+  forall (l : str) (st : sstate), st_ok st -> existsb (N.eqb c_lbrace) l = false ->
+  fold_left scan_step l st = with_lit st (rev l ++ st_lit_rev st).
+Print Assumptions C04_scan_literal.
+
+Theorem C04_scan_section :
+  forall (st : sstate) (w : str) (ops : list op) (d : bool), st_ok st -> not_after_dollar st ->
+  single_scan w 0 false = Some (0%nat, false) ->
+  parse_template (c_lbrace :: w ++ [c_rbrace]) = Ok (ops, d) ->
+  fold_left scan_step (c_lbrace :: w ++ [c_rbrace]) st = after_section st ops d.
+Proof. exact scan_section. Qed.
+Check C04_scan_section :
+  forall (st : sstate) (w : str) (ops : list op) (d : bool), st_ok st -> not_after_dollar st ->
+  single_scan w 0 false = Some (0%nat, false) ->
+  parse_template (c_lbrace :: w ++ [c_rbrace]) = Ok (ops, d) ->
+  fold_left scan_step (c_lbrace :: w ++ [c_rbrace]) st = after_section st ops d.
+Print Assumptions C04_scan_section.
 
 Theorem C04_concatenation :
   forall (E : Env) (s1 s2 : list section) (x : str),
